@@ -272,7 +272,7 @@ func normalise(fd *ast.FuncDecl) {
 	var objs []*ast.Object
 	ast.Inspect(fd, func(n ast.Node) bool {
 		id, ok := n.(*ast.Ident)
-		if !ok || id.Obj == nil || id.Name == "_" {
+		if !ok || id.Obj == nil || id.Name == "_" || id.Obj.Kind == ast.Fun {
 			return true
 		}
 		o := id.Obj
